@@ -75,7 +75,18 @@ MISSED13 = {"C05/1": "every starmap/doublestarmap element was an instance of the
             "C16/2": "socket paths were always absolute and the simulated bind() accepted any length; a share of the unix runs now uses a short RELATIVE socket path from inside a deep working directory, and SimNet enforces the sun_path limit (107 bytes) on the path as given",
             "C17/1": "argument literals never had a bracket character inside a string; added ('(',), ['[x'], ('}', ')'), ('a]', 1)",
             "C17/2": "get-group-ids was only asked for groups with small task ids, whose set prints in ascending order; added programs with 9-33 one-task groups followed by get-group-ids over several of them ({8, 1} does not print ascending)"}
-MISSED = MISSED13 if ROUND == 13 else MISSED12 if ROUND == 12 else MISSED11 if ROUND == 11 else MISSED10 if ROUND == 10 else MISSED9 if ROUND == 9 else MISSED8 if ROUND == 8 else MISSED7 if ROUND == 7 else MISSED6 if ROUND == 6 else {} if ROUND != 5 else {"C01/1": "the pool generator never assigned pool_size to an empty pool; added the resize_idle step (size assigned while the pool is empty, all C01 oracles continue with the new size)",
+MISSED14 = {"C03/2": "workers only failed with exceptions of their own; added worker outcome xl: the worker uses the pool itself (cancel() of a task that is inside its cancel callback / has ended / never existed) and does not handle the documented error - AlreadyCancelled, AlreadyEnded or InvalidTaskID is then the task's failure, nobody cancelled it",
+            "C06/1": "cancel()/cancel_group()/cancel_all() were never given msg=, and the warnings-as-errors knob only covered warnings attributed to the library's own modules; the cancel steps now pass msg= in a quarter of the cases and the knob also turns UserWarning/DeprecationWarning attributed to the caller (warnings.warn(..., stacklevel=3)) into errors",
+            "C06/2": "ids were always ints; cancel steps now also name ids that are no ints: None, '3', 7.5 and a float equal to an id",
+            "C07/2": "as C06/1: msg= for cancel_group/cancel_all and the broader warnings-as-errors knob",
+            "C09/1": "the not-a-coroutine-function inputs all had a one-piece repr; added a (function, argument) pair - whoever formats the error message with % must cope with a tuple",
+            "C09/2": "every request was made under a running event loop; rejected requests (locked/closed pool, not a coroutine function) are now also made by synchronous code with no running loop - the check comes before anything needs a loop",
+            "C12/1": "raising callbacks were closures only; the raising kinds now also come as partial, callable object, bound method and marked object (no __name__)",
+            "C16/2": "C16 only asked for help; the extra members that need no argument are now also called once (among them a synchronous method that hands back a pending awaitable) and each must be answered at once, and so must the command after them",
+            "C17/1": "no dotted path had a component with a leading underscore; added tpsim.ctlworkers._hidden",
+            "C18/2": "workers of the control simulation never failed; a gate can now be resolved with an exception, so flush / gather-and-close without --return-exceptions have an error to answer with",
+            "C19/2": "the bundled client only ever received short replies; a share of its scripts now starts with commands answered by several KiB (1200 task ids), followed by ordinary ones - every reply must be printed under its own command"}
+MISSED = MISSED14 if ROUND == 14 else MISSED13 if ROUND == 13 else MISSED12 if ROUND == 12 else MISSED11 if ROUND == 11 else MISSED10 if ROUND == 10 else MISSED9 if ROUND == 9 else MISSED8 if ROUND == 8 else MISSED7 if ROUND == 7 else MISSED6 if ROUND == 6 else {} if ROUND != 5 else {"C01/1": "the pool generator never assigned pool_size to an empty pool; added the resize_idle step (size assigned while the pool is empty, all C01 oracles continue with the new size)",
           "C03/2": "callbacks were always closures; added callbacks that are bound methods of an object nothing else refers to (kinds sm/am/gm)",
           "C04/1": "the injected factory failure was always a FactoryError; the exception type now varies (FactoryError, TypeError, ValueError, KeyError, AttributeError)",
           "C04/2": "payload keyword names were always kw_x; added payload shapes whose keyword names coincide with the library's own parameter names (group_name, func, num, end_callback, self, args, kwargs ...)",
